@@ -209,12 +209,31 @@ def _worker(args):
     return acc.result()
 
 
+def history_panel():
+    """Client hello wire forms for the pristine-process histories: every single extension kind, all kinds together,
+    groups and point formats with GREASE and unassigned codes - with the JA3 the reference computes for them."""
+    CH = 'cryptoparser.tls.subprotocol.TlsHandshakeClientHello'
+    panel = []
+    for exts in [None, []] + [[e] for e in EXT_POOL] + [list(EXT_POOL), ['supported_groups', 'ec_point_formats'],
+                                                       ['ec_point_formats', 'supported_groups', 'server_name']]:
+        for groups, pfs in (([29, 23], [0]), ([0x1a1a, 29, 0xeeee], [0, 1])):
+            ex = None if exts is None else [ext_of(x, groups, pfs) for x in exts]
+            wire = hello(0x0303, [0x1301, 0x002f, 0x0a0a], ex)
+            if [CH, wire.hex(), 'ja3'] not in panel:
+                panel.append([CH, wire.hex(), 'ja3'])
+    return panel
+
+
 def run(ctx):
     parts = 32
     items = [('single', p, parts, False) for p in range(parts)] + [('pairs', p, parts, False) for p in range(parts)]
     if not ctx.quick:
         items += [('triples', p, parts, True) for p in range(parts)]
     ctx.pmap(_worker, items)
+    from mc import classes, history
+    prefixes = history.class_prefixes(keep=lambda q: classes.family(q) == 'tls')
+    history.explore(ctx, history_panel(), prefixes, 'JA3 of a client hello',
+                    lambda first: 'ja3:depends_on_history:after:%s' % first)
     ctx.assumptions += ['JA3 per the published definition (salesforce/ja3 README): GREASE = the sixteen 0x?A?A values; '
                         'one-byte values are never GREASE for JA3',
                         'known findings are matched by deviation: a mismatch is covered only when the library string equals '
@@ -222,12 +241,19 @@ def run(ctx):
     return ctx.finish(rule='client hello wire forms: 6 versions; every suite list of length 1-3 over {2 known, unassigned, GREASE look-alike, '
                            'GREASE, 00ff, 5600}; every extension list of length 0-3 (and absent) over 7 extension kinds '
                            'with duplicates; group lists of length 1-2 over 4 codes; point-format lists of length 1-2 over '
-                           '4 codes; every combination of two deviating sections%s'
+                           '4 codes; every combination of two deviating sections%s; pristine-interpreter histories: a 40-hello panel '
+                           'alone vs. after the seeds of every single TLS class and after all of them (both orders)'
                            % ('' if ctx.quick else '; three deviating sections'))
 
 
 def replay(ctx, w):
     acc = core.Acc()
+    if w.get('kind') == 'pristine_history':
+        from mc import history
+        if history.replay_one(w):
+            return {'signature': 'ja3:depends_on_history:after:%s' % w['first_label'].rsplit('.', 1)[-1],
+                    'what': 'JA3 depends on what was parsed before', 'witness': w}
+        return None
     exts = None if w['extensions'] is None else [ext_of(x, w['groups'], w['point_formats']) for x in w['extensions']]
     check(acc, hello(w['version'], w['suites'], exts), w)
     vs = list(acc.violations.values())
